@@ -27,23 +27,56 @@ def _job(args):
     out = dict(n=0, nontrivial=0, stats={}, violations=[], disagreements=[], pairs=[], samples=[], known=[])
     for it in range(n):
         root, dirs, files = scan.gen_tree(rng, max_depth=5)
-        scan.gen_imports(rng, dirs, files, nested=False)
+        scan.gen_imports(rng, dirs, files, externals=scan.EXTERNALS if it % 3 == 2 else (), nested=False, per_file=6 if it % 3 == 2 else 4)
         base = scan.materialise(dirs, files)
         try:
             # module_path = root, and one directory at each depth below it (1, 2, 3+ levels below root)
             mps = [(root,)] + [d for d in dirs if len(d) == 2][:1] + [d for d in dirs if len(d) == 3][:1] + [d for d in dirs if len(d) >= 4][:1]
             for mp in mps:
-                full = scan.real_scan(base, root, mp)
+                # one third of the projects are scanned with further options switched on as well: a file / directory exclusion
+                # built from the tree's own names, and / or external libraries kept - the limited scan must still be the
+                # quotient of the unlimited scan made with the SAME options
+                opts = {}
+                if it % 3 == 2:
+                    names = sorted({p[-1] for p in list(files) + list(dirs)[1:]})
+                    if names and rng.random() < 0.8:
+                        nm = rng.choice(names)
+                        opts["exclusions"] = (rng.choice(["*" + nm + ".py", "*/" + nm, "*" + nm + "*"]),)
+                    if rng.random() < 0.5:
+                        opts["exclude_external_libraries"] = False
+                        if rng.random() < 0.7:
+                            # a pattern that hits a deep external module this project imports but not its parents, or a whole package
+                            used = set()
+
+                            def walk(st):
+                                if st[0] == "import":
+                                    used.update(st[1])
+                                elif st[0] == "from" and st[1] == 0 and st[2]:
+                                    used.update(st[2] + "." + nmx for nmx in st[3])
+                                elif st[0] == "block":
+                                    for c0 in st[2]:
+                                        walk(c0)
+                            for v0 in files.values():
+                                for st in v0["body"]:
+                                    walk(st)
+                            deep = sorted(x for x in used if x.count(".") >= 1 and not x.startswith(root))
+                            target = rng.choice(deep) if deep else "xml.etree.ElementTree"
+                            if rng.random() < 0.5:
+                                opts["external_exclusions"] = (rng.choice([target, "*" + target.rsplit(".", 1)[-1], target.split(".")[0] + "*"]),)
+                            else:
+                                import re as _re
+                                opts["regex_external_exclusions"] = (rng.choice([_re.escape(target) + "$", _re.escape(target), ".*" + _re.escape("." + target.rsplit(".", 1)[-1]) + "$"]),)
+                full = scan.real_scan(base, root, mp, **opts)
                 if full[0] != "OK":
                     continue
                 depth_max = max(len(x) for x in list(dirs) + list(files)) - len(mp)
                 enc = rules.Enc()
                 cases, metas = [], []
                 for k in range(1, max(1, depth_max) + 1):
-                    lim = scan.real_scan(base, root, mp, level_limit=k)
+                    lim = scan.real_scan(base, root, mp, level_limit=k, **opts)
                     out["n"] += 1
                     case = dict(dirs=[list(d) for d in dirs], files={scan.dotted(f): (scan.render_file(v["body"]) if v["py"] else None) for f, v in files.items()},
-                                module_path=list(mp), level_limit=k)
+                                module_path=list(mp), level_limit=k, options={kk: list(vv) if isinstance(vv, tuple) else vv for kk, vv in opts.items()})
                     if lim[0] != "OK":
                         out["violations"].append((dict(case, error=lim[1]), f"scan with level_limit={k} failed", {"kind": "scan_error"}))
                         continue
@@ -53,8 +86,9 @@ def _job(args):
                         out["violations"].append((dict(case, modules=lim[1], quotient_modules=qn, edges_surplus=sorted(set(lim[2]) - set(qe)), edges_missing=sorted(set(qe) - set(lim[2]))),
                                                   f"level_limit={k}: architecture is not the quotient of the full architecture", {"kind": "quotient"}))
                         continue
-                    cases.append(scan.model_scan_case(enc, root, dirs, files, mp, limit=k))
-                    metas.append((k, lim, case))
+                    if not opts:
+                        cases.append(scan.model_scan_case(enc, root, dirs, files, mp, limit=k))
+                        metas.append((k, lim, case))
                     if len(qn) < len(full[1]):
                         out["nontrivial"] += 1
                     # verdict preservation for rules above the limit
@@ -106,7 +140,7 @@ def run(ctx: Ctx):
             ctx.violation(case, what, tags)          # matched against known_findings.json (K1) by its tags
         rules.merge_into(ctx, r)
     ctx.stat("projects", n)
-    ctx.rule = (f"{n} random projects x module_path in {{root, one directory each at 1, 2 and 3+ levels below root}} x level_limit k = 1..depth: limited scan vs the quotient of the unlimited scan (names truncated to k levels below module_path, "
+    ctx.rule = (f"{n} random projects x module_path in {{root, one directory each at 1, 2 and 3+ levels below root}} x level_limit k = 1..depth (one third of the projects additionally with a file/directory exclusion and/or externals kept): limited scan vs the quotient of the unlimited scan (names truncated to k levels below module_path, "
                 "self edges dropped) and vs the model scan; C01's rule shapes over modules above the limit evaluated on both real architectures (verdict must coincide; rules with related subject/object are "
                 "known finding K1); non-trivial = limit that actually merges modules")
 
